@@ -81,12 +81,21 @@ def make_body(spec, falsify=False):
         sym = [inp.int(f"r{k}", -2, 3) for k in range(3)]
         outcomes = [inp.bit(f"m{k}") for k in range(4)]
         site = {"template": spec["name"].split(":")[0], "debug": debug}
-        A = run_one(text, False, False, sym, outcomes)
+        try:
+            A = run_one(text, False, False, sym, outcomes)
+        except PathAbort as e:
+            if "outcome script exhausted" in str(e):
+                return []      # the original program measures more often than the outcome script is long (4): outside the bound
+            raise
         if A["fault"] is not None:
             return []          # the original program faults: not a program the SDK emits
         try:
             B = run_one(text, True, debug, sym, outcomes)
-        except (PathAbort, Infeasible):
+        except PathAbort as e:
+            if "outcome script exhausted" in str(e):
+                return [Ob("same_measurements", False, dict(site, why="transpiled program measures more often than the original"))]
+            raise
+        except Infeasible:
             raise
         except Exception as e:  # noqa
             return [Ob("transpiler_raises", False, dict(site, exc=type(e).__name__), info=f"{type(e).__name__}: {str(e)[:200]}")]
@@ -187,6 +196,12 @@ def templates(tier, seed):
         for a, b in ((0, 1), (1, 2)):
             T.append((f"jmpfwd:{g}@{a}{b}", f"set Q0 {a}\nset Q1 {b}\n{gl}\njmp OVER\nx Q0\nOVER:\ny Q1\n{gl}\n"))
             T.append((f"jmploop:{g}@{a}{b}", f"set Q0 {a}\nset Q1 {b}\n{gl}\nset R0 0\nHEAD:\nbeq R0 2 END\nt Q1\n{gl}\nadd R0 R0 1\njmp HEAD\nEND:\nz Q0\n"))
+    # a loop whose head is the very first instruction of the subroutine (branch / jump target 0), driven by measurement outcomes
+    for v in range(NQ):
+        T.append((f"loop0:h@{v}", f"TOP:\nset Q0 {v}\nh Q0\nmeas Q0 M0\nbnz M0 TOP\nset Q0 {v}\nx Q0\n"))
+        T.append((f"loop0:jmp@{v}", f"TOP:\nset Q0 {v}\nt Q0\nh Q0\nmeas Q0 M0\nbez M0 END\njmp TOP\nEND:\nh Q0\n"))
+    for a, b in ((0, 1), (1, 2), (2, 0)):
+        T.append((f"loop0:cnot@{a}{b}", f"TOP:\nset Q0 {a}\nset Q1 {b}\ncnot Q0 Q1\nmeas Q1 M0\nbnz M0 TOP\nz Q0\n"))
     # Q register written by load (recorded finding: the transpiler only tracks `set`)
     T.append(("load:single", "set R0 1\narray R0 @0\nset R1 0\nset R2 1\nstore R2 @0[R1]\nload Q0 @0[R1]\nh Q0\n"))
     T.append(("load:two", "set R0 1\narray R0 @0\nset R1 0\nset R2 2\nstore R2 @0[R1]\nset Q0 1\nload Q1 @0[R1]\ncnot Q0 Q1\n"))
@@ -240,7 +255,7 @@ def main(tier, seed):
                   "backward jumps into an expansion, Q registers re-written between gates, Q registers written by load; debug off and (for a "
                   "seventh of the templates) on" + ("; 400 seeded composite programs" if tier == "thorough" else ""),
                   "register contents for branch conditions symbolic (-2..3), four measurement outcomes symbolic, quantum state arbitrary"]
-    rep.outside = ["more than 2 carbons", "rotation operands other than the listed dyadic ones inside programs (arbitrary n, d are C07 (b))",
+    rep.outside = ["more than 2 carbons", "programs that measure more than 4 times on some path (outcome scripts have 4 symbolic bits)", "rotation operands other than the listed dyadic ones inside programs (arbitrary n, d are C07 (b))",
                    "init on a live qubit (non-unitary reset)"]
     rep.stubs = ["StateVecExecutor / vf/cyclo.py operator semantics; the three qubits are allocated by a first subroutine, then the state is arbitrary"]
     for r in pmap(work, specs):
